@@ -19,3 +19,7 @@ def run(prog, rep):
     r_flow.run_forward(prog, rep, which=('MultiTag',))
     from ..rules import r_view as _rv
     _rv.run_indata(prog, rep)
+    from ..rules import r_flow as _rf
+    _rf.run_parallel(prog, rep)
+    from ..rules import r_unit as _ru
+    _ru.run_static_memo(prog, rep)
